@@ -403,6 +403,82 @@ def body_geometry(spec, obj):
     raise ValueError(cls)
 
 
+def _seg_dist_v(q, a, b):
+    ab = b - a
+    den = np.einsum("ij,ij->i", ab, ab)
+    t = np.clip(np.einsum("ij,ij->i", q - a, ab) / np.where(den == 0, 1, den), 0, 1)
+    return np.linalg.norm(q - (a + t[:, None] * ab), axis=1)
+
+
+def pt_tris_min_dist(q, tris):
+    """distance of the point q to the nearest of the triangles tris (m,3,3); degenerate triangles count as segments"""
+    a, b, c = tris[:, 0], tris[:, 1], tris[:, 2]
+    n = np.cross(b - a, c - a)
+    nn = np.linalg.norm(n, axis=1)
+    ok = nn > 0
+    nh = n / np.where(ok, nn, 1)[:, None]
+    d = np.einsum("ij,ij->i", q - a, nh)
+    pr = q - d[:, None] * nh
+    inside = ok.copy()
+    for u, v in ((a, b), (b, c), (c, a)):
+        inside &= np.einsum("ij,ij->i", np.cross(v - u, pr - u), nh) >= 0
+    edge = np.minimum(np.minimum(_seg_dist_v(q, a, b), _seg_dist_v(q, b, c)), _seg_dist_v(q, c, a))
+    return float(np.min(np.where(inside, np.abs(d), edge)))
+
+
+def surface_samples(spec, obj, count=24):
+    """points ON the true surface of the body (local frame), fixed pseudo-random choice"""
+    rs = np.random.RandomState(4242)
+    cls, p = spec["cls"], spec["params"]
+    pts = []
+    if cls == "Cuboid":
+        h = np.array(p["dim"], dtype=float) / 2
+        for _ in range(count):
+            q = rs.uniform(-1, 1, 3) * h
+            ax = rs.randint(3)
+            q[ax] = h[ax] * rs.choice([-1, 1])
+            pts.append(q)
+    elif cls in ("Tetrahedron", "TriangularMesh", "Triangle"):
+        if cls == "TriangularMesh":
+            v, f = np.array(obj.vertices, dtype=float), np.array(obj.faces)
+        elif cls == "Tetrahedron":
+            v, f = np.array(p["verts"], dtype=float), np.array([(0, 1, 2), (0, 1, 3), (0, 2, 3), (1, 2, 3)])
+        else:
+            v, f = np.array(p["verts"], dtype=float), np.array([(0, 1, 2)])
+        for _ in range(count):
+            a, b, c = v[f[rs.randint(len(f))]]
+            w = rs.dirichlet([1, 1, 1])
+            pts.append(w[0] * a + w[1] * b + w[2] * c)
+    elif cls == "Cylinder":
+        d, hh = p["dim"]
+        for _ in range(count):
+            t = rs.uniform(0, 2 * np.pi)
+            if rs.rand() < 0.5:
+                pts.append([d / 2 * np.cos(t), d / 2 * np.sin(t), rs.uniform(-hh / 2, hh / 2)])
+            else:
+                r = d / 2 * np.sqrt(rs.rand())
+                pts.append([r * np.cos(t), r * np.sin(t), hh / 2 * rs.choice([-1, 1])])
+    elif cls == "Sphere":
+        for _ in range(count):
+            u = rs.normal(size=3)
+            pts.append(u / np.linalg.norm(u) * p["d"] / 2)
+    elif cls == "CylinderSegment":
+        r1, r2, hh, p1, p2 = p["dim"]
+        for _ in range(count):
+            t = np.deg2rad(rs.uniform(p1, p2))
+            k = rs.randint(4 if (p2 - p1) < 360 else 3)
+            if k == 0:
+                r, z = r2, rs.uniform(-hh / 2, hh / 2)
+            elif k == 1:
+                r, z = r1, rs.uniform(-hh / 2, hh / 2)
+            elif k == 2:
+                r, z = rs.uniform(r1, r2), hh / 2 * rs.choice([-1, 1])
+            else:
+                r, z, t = rs.uniform(r1, r2), rs.uniform(-hh / 2, hh / 2), np.deg2rad(rs.choice([p1, p2]))
+            pts.append([r * np.cos(t), r * np.sin(t), z])
+    return np.array(pts, dtype=float)
+
+
 def support_gap(drawn, truth, L):
     """largest amount by which the true body sticks out of the drawn vertex cloud, over the 6 axis directions
     and 20 fixed oblique ones (relative to L)"""
@@ -612,6 +688,12 @@ def check_single(spec):
         worst = max(dist(q) for q in cen)
         if worst > slack * L:
             return ("on-surface", f"a drawn facet's centre is {worst / L:.3g} x size away from the surface")
+        # no holes: points of the true surface are covered by the drawn facets
+        tris = local[first]
+        cover = {"Cuboid": 1e-9, "Tetrahedron": 1e-9, "TriangularMesh": 1e-9, "Triangle": 4e-3}.get(cls, 0.03)
+        for q in surface_samples(spec, build(ref_spec)):
+            if pt_tris_min_dist(q, tris) > cover * L:
+                return ("full-extent", "a part of the body's surface is not covered by any drawn facet")
 
     # ---- the default display (orientation cones, current arrows, ... switched on) contains the same body
     full, _ = to_metres(do_show([build(spec)], show_kwargs(spec, decor=True)))
